@@ -34,5 +34,5 @@ def run_stage(ctx, prefixes, packages=PKGS, timeout=3000):
     trace = st_cluster.merge(ctx, traces, "fixture-trace.ndjson")
     stats = st_cluster.account(ctx, trace)
     ctx.stage("fixture-real-runs", packages=packages, test_failures=failed_pkgs[:5], **stats)
-    vlib.validate_traces(ctx, st_cluster.MODULE, trace, st_cluster.invariants(prefixes), tuple(prefixes), timeout=3000, heap="10g", sig_detail=st_cluster.sig_detail)
+    vlib.validate_traces_parallel(ctx, st_cluster.MODULE, trace, st_cluster.invariants(prefixes), tuple(prefixes), chunks=8, timeout=3000, heap="10g", sig_detail=st_cluster.sig_detail)
     return stats
